@@ -19,6 +19,8 @@ import Rbgp.Policy.Proofs
 namespace Rbgp.Policy.Props
 open Rbgp.Policy
 
+def envAll0 : RegexEnv := { valid := fun _ => true, «matches» := fun _ _ => true, extStr := fun _ => none }
+
 /-! ## 0. The reference checker accepts every run of the model -/
 
 /-- For every probe set and every sequence of CRUD calls (add / replace / delete on sets,
@@ -205,6 +207,31 @@ theorem referenced_unchanged (env : RegexEnv) (ops : List Op) (op : Op) :
   exact ⟨fun k n h => step_sets_lookup env hi op k n h, fun n h h' => step_stmts_lookup env hi op n h h',
     fun n h => step_pols_lookup env hi op n h⟩
 
+/-- What was asked is what is listed: after ANY successful add / replace call — on any reachable
+    table — every requested set element is a member of the listed set (for a prefix set every
+    (prefix, mask range); a REPLACE moreover leaves nothing else), the listed statement has the
+    requested conditions, disposition and actions, the policy ends with the requested statements,
+    the assignment has the requested name, default and policies. -/
+theorem request_stored (env : RegexEnv) (ops : List Op) (op : Op) :
+    let t := runTable env {} ops
+    Spec.requestStored op (t.step env op).2 (t.step env op).1.dump = true := by
+  intro t
+  have hi : Inv true t := crud_ref_closed env ops
+  exact requestStored_ok env hi op (hi.step env op (Or.inl rfl))
+
+/-- No stale object anywhere in a reachable table, also behind policies no assignment uses: the
+    set objects every statement holds, the statements every policy holds and the sets those hold
+    are the objects listed under their names. -/
+theorem no_stale_objects (env : RegexEnv) (ops : List Op) : Spec.heldCurrent (runTable env {} ops).dump = true :=
+  heldCurrent_ok (crud_ref_closed env ops)
+
+/-- R-B: one prefix with two different mask ranges is refused, not silently reduced to the last
+    range; the same entry twice is harmless -/
+example : ((({} : Table).addDefinedSet envAll0 .prefix "ps1"
+    [.pfx ⟨⟨false, 167772160⟩, 8, 24, 24⟩, .pfx ⟨⟨false, 167772160⟩, 8, 8, 8⟩]).2,
+    (({} : Table).addDefinedSet envAll0 .prefix "ps1"
+    [.pfx ⟨⟨false, 167772160⟩, 8, 24, 24⟩, .pfx ⟨⟨false, 167772160⟩, 8, 24, 24⟩]).2) = (.invalid, .ok) := by decide +kernel
+
 /-! ## 5b. The holders outside `PolicyTable`: published copies and per-peer export overrides -/
 
 /-- For EVERY sequence of daemon calls (set / statement calls on `global.ptable`, the `Global`
@@ -333,6 +360,8 @@ end Rbgp.Policy.Props
 #print axioms Rbgp.Policy.Props.crud_ref_closed
 #print axioms Rbgp.Policy.Props.in_use_not_deleted
 #print axioms Rbgp.Policy.Props.referenced_unchanged
+#print axioms Rbgp.Policy.Props.request_stored
+#print axioms Rbgp.Policy.Props.no_stale_objects
 #print axioms Rbgp.Policy.Props.holders_ref_closed
 #print axioms Rbgp.Policy.Props.eval_eq_reference_daemon
 #print axioms Rbgp.Policy.Props.holder_untouched
